@@ -564,14 +564,19 @@ func runReader(r io.Reader, p dirPlan, frames []int, want []byte, sk *sink, who 
 
 type chopPlan struct {
 	R, W []int // cyclic chunk sizes, 0 = unlimited
+	// EOFWithData: the Read that delivers the last bytes before the peer's close reports
+	// io.EOF together with them (allowed by io.Reader; what a TLS-terminating proxy conn,
+	// a pipe over a buffer or iotest.DataErrReader do)
+	EOFWithData bool
 }
 
 var chopSizes = []int{0, 0, 0, 1, 1, 2, 3, 5, 16, 17, 18, 100, 1000, 4096, 4097, 65535, 65536}
 
 func drawChop(rt *rapid.T, label string) chopPlan {
 	var c chopPlan
+	c.EOFWithData = rapid.IntRange(0, 2).Draw(rt, label+"-eofWithData") == 0
 	if rapid.IntRange(0, 3).Draw(rt, label+"-chop") == 0 {
-		return chopPlan{R: []int{0}, W: []int{0}}
+		return chopPlan{R: []int{0}, W: []int{0}, EOFWithData: c.EOFWithData}
 	}
 	for i, n := 0, rapid.IntRange(1, 5).Draw(rt, label+"-nr"); i < n; i++ {
 		c.R = append(c.R, rapid.SampledFrom(chopSizes).Draw(rt, label+"-r"))
@@ -620,7 +625,11 @@ func (c *chopConn) Read(p []byte) (int, error) {
 	if k > 0 && k < len(p) {
 		p = p[:k]
 	}
-	return c.Conn.Read(p)
+	n, err := c.Conn.Read(p)
+	if c.plan.EOFWithData && n > 0 && err == nil && c.Conn.AtEOF() {
+		err = io.EOF
+	}
+	return n, err
 }
 
 func (c *chopConn) Write(p []byte) (int, error) {
